@@ -784,7 +784,12 @@ class _G:
     def bad_node(self, depth):
         self.bad_used = True
         u = self.gen(depth - 1)
-        r = self.int(0, 11)
+        r = self.int(0, 13)
+        if r >= 12:
+            # a function of the table's name in another namespace is not math's
+            nm = self.pick(("sin", "exp", "tanh", "log", "fabs", "cos"))
+            ns = self.pick((V("mylib"), V("cmath"), ["Lookup", V("pkg"), "sub"]))
+            return ["Call", ["Lookup", ns, nm], [u]]
         if r == 0:
             return ["Call", V("f"), [u]]
         if r == 1:
